@@ -128,4 +128,87 @@ theorem R.release {b : LB α} {q : Q α} (hR : R b q) (hd : q.dead = false) :
     rw [List.drop_zero, h3, hR.abs]
   · intro _ c cp hc; cases hc
 
+theorem slice_refines (cfg : Cfg) {b : LB α} {q : Q α} (hR : R b q) (n : Int) (hC : sliceContract q = true) :
+    ∃ b' r c, b.slice cfg n = some (b', r, c) ∧ R b' (specSlice q n).1 ∧ Matches r (specSlice q n).2.2 ∧
+      (match c, (specSlice q n).2.1 with
+       | some cb, some cq => R cb cq
+       | none, none => True
+       | _, _ => False) := by
+  obtain ⟨hd, hro, happ⟩ := readContract hC
+  unfold LB.slice
+  by_cases h0 : n ≤ 0
+  · simp only [h0, if_true, specSlice_nonpos q n h0]
+    exact ⟨_, _, _, rfl, hR, rfl, R_newLB cfg 0⟩
+  · simp only [h0, if_false]
+    by_cases hlt : b.length < n.toNat
+    · simp only [hlt, if_true, specSlice_short q n h0 (hR.len ▸ hlt)]
+      exact ⟨_, _, _, rfl, hR, rfl, trivial⟩
+    · have hlq : ¬ q.len < n.toNat := hR.len ▸ hlt
+      simp only [hlt, if_false, specSlice_ok q n h0 hlq]
+      have hn : 0 < n.toNat := by omega
+      obtain ⟨q1, q2⟩ := q.stream n.toNat hro (by omega)
+      have hsh := hR.shape hd
+      have s1 := q1
+      have s2 := q2
+      rw [← hR.abs] at s1 s2
+      obtain ⟨r0, nd, rest, e, h1, h2, h3, h4, h5⟩ :=
+        isSingleNode_spec (b.consumeLen n.toNat) n.toNat hsh.r_le_f hn s1 s2
+      simp only [e]
+      have hoff : ∀ x ∈ nd :: rest, x.off ≤ x.buf.length := by
+        intro x hx; rw [← h3] at hx; exact hsh.off_le x (List.mem_of_mem_drop hx)
+      have hfb : (q.items.take n.toNat).map (·.1) = ((absL (nd :: rest)).take n.toNat).map (·.1) := by
+        rw [← h3, h5]; show _ = (b.abs.take n.toNat).map _; rw [hR.abs]
+      have s1' : n.toNat ≤ (absL (nd :: rest)).length := by rw [← h3, h5]; exact s1
+      have s2' : ∀ x ∈ (absL (nd :: rest)).take n.toNat, x.2 = true := by rw [← h3, h5]; exact s2
+      cases hdec : decide (nd.len ≥ n.toNat) <;> simp only []
+      · rw [h3]
+        simp only []
+        have hlt' : nd.len < n.toNat := by simpa using hdec
+        have hoff' : ∀ x ∈ rest, x.off ≤ x.buf.length := fun x hx => hoff x (List.mem_cons_of_mem _ hx)
+        obtain ⟨t1, t2, t3, t4⟩ := stream_tail nd rest n.toNat hlt' s1' s2'
+        obtain ⟨chs, ns', k, e2, hb, hch, ha, hadv, x, hx, hx0⟩ :=
+          sliceLoop_spec rest (n.toNat - nd.len) (by omega) t1 t2 hoff'
+        rw [e2]
+        simp only []
+        have h3' : b.nodes.drop r0 = nd :: rest := h3
+        have hR1 : R ({ ({ b.consumeLen n.toNat with r := r0 } : LB α) with
+              nodes := spliceFrom (b.consumeLen n.toNat).nodes r0
+                ((({ nd with exposed := true } : Node α).refer nd.len).2 :: ns'),
+              r := r0 + 1 + k } : LB α) { q with items := q.items.drop n.toNat } := by
+          refine hR.consume hd happ hro n.toNat hn (by omega) r0 h2 h5
+            ((({ nd with exposed := true } : Node α).refer nd.len).2 :: ns') (k + 1) ?_ ?_ ?_
+            rfl (by show r0 + 1 + k = r0 + (k + 1); omega) rfl rfl rfl rfl rfl
+          · rw [h3']
+            exact AdvL.cons ⟨rfl, rfl, rfl, rfl, rfl, by simp [Node.refer, Node.next],
+              by simp [Node.len, Node.refer, Node.next]; have := hoff nd (List.mem_cons_self ..); omega⟩ hadv
+          · rw [h3', List.drop_succ_cons, ha, t3]
+          · rw [h3']; exact ⟨x, by simpa using hx, hx0⟩
+        obtain ⟨b2, e3, hR2⟩ := hR1.release hd
+        rw [e3]
+        refine ⟨_, _, _, rfl, hR2, rfl, ?_⟩
+        show R (sliceLB (_ :: chs) n.toNat) _
+        refine R_sliceLB _ q.items n.toNat ?_ q1 q2 ?_
+        · intro ch hc
+          simp only [List.mem_cons] at hc
+          rcases hc with rfl | hc
+          · exact ⟨rfl, rfl⟩
+          · exact hch ch hc
+        · rw [hfb, t4, ← hb]
+          simp only [List.flatMap_cons, Node.refer, Node.next, Node.readable, Node.len, List.drop_zero]
+          rw [List.take_of_length_le (by simp)]
+      · rw [h4]
+        simp only []
+        have hge : nd.len ≥ n.toNat := by simpa using hdec
+        obtain ⟨hadv, ha, hk, hb⟩ := single_spec nd
+          (({ nd with exposed := true } : Node α).refer n.toNat).2 rest n.toNat hge hn hoff rfl rfl rfl rfl rfl rfl
+        refine ⟨_, _, _, rfl, ?_, rfl, ?_⟩
+        · refine hR.consume hd happ hro n.toNat hn (by omega) r0 h2 h5 _ 0 (h3 ▸ hadv) (h3 ▸ ha) (h3 ▸ hk)
+            ?_ rfl rfl rfl rfl rfl rfl
+          exact set_of_drop_eq_cons h3 _
+        · show R (sliceLB [_] n.toNat) _
+          refine R_sliceLB _ q.items n.toNat ?_ q1 q2 ?_
+          · intro ch hch
+            simp only [List.mem_singleton] at hch; subst hch; exact ⟨rfl, rfl⟩
+          · rw [hfb, hb]; simp [Node.refer, Node.next, Node.readable]
+
 end Netpoll.Buf
